@@ -132,16 +132,32 @@ def c01(tier):
     plan = [
         {'kind': 'corpus', 'file': 'r7rs.scm', 'count': 0, 'cfgs': 'basic'},
         {'kind': 'lang', 'count': n, 'cfgs': 'basic', 'shards': 1 if tier == 'quick' else 16},
+        # nested procedures with shadowing over three names (the C02 skeletons, three levels): lambda / define /
+        # set! with every mix of parameter, rest parameter, internal definition and free variable
+        {'kind': 'scope', 'count': 120 if tier == 'quick' else 6000, 'cfgs': 'plain', 'args': ['l=3', 'mode=random'],
+         'shards': 1 if tier == 'quick' else 8},
     ]
 
     def relevant(mm, sess, runs):
         return mm['kind'] in ('conformance', 'corpus') and any(r in ('plain', 'prefix', 'spec') for r in runs)
 
-    return cek_property('C01', tier, plan, relevant,
+    import mach
+    mcov = {}
+
+    def machine_check(verdict, sessions, wd):
+        # second, implementation-shaped semantics (spec/Machine.tla): the compiler's output for every form and the
+        # register trace of every instruction, for grammar sessions and scope skeletons
+        q = tier == 'quick'
+        mcov.update(mach.run(verdict, wd, [('lang', 25 if q else 1500), ('scope3', 10 if q else 600)], vlib.seed()))
+
+    return cek_property('C01', tier, plan, relevant, extra_check=machine_check,
+                        extra_cov=lambda sessions, ends: {'compiler_and_instruction_traces': mcov}, rule=
                         'sessions of 3-8 top-level forms from the typed recursive grammar of harness/src/gen_lang.rs '
                         '(every core and derived form, fixed/variadic procedures, apply, eval, map/for-each, '
                         'redefinition, failure injection 15%), each run in a fresh VM and in a VM with unrelated '
-                        'earlier definitions, plus the hand-stated R7RS corpus')
+                        'earlier definitions, plus the hand-stated R7RS corpus, plus random three-level scope '
+                        'skeletons (nested lambda / internal define / set! over three shadowing names)')
+
 
 
 REPLAYERS = {}     # replay kind -> function(obj) -> exit code; plug-ins register here
@@ -153,6 +169,9 @@ def replay(pid, path):
     if obj.get('kind') == 'numtower':
         import numtower
         return numtower.replay(obj)
+    if obj.get('kind') == 'machine':
+        import mach
+        return mach.replay(obj)
     if obj.get('kind') in REPLAYERS:
         return REPLAYERS[obj['kind']](obj)
     if obj.get('kind') == 'cek-session':
